@@ -118,6 +118,20 @@ SrvShareControl(b, i, lim) ==
      ELSE SrvData(b, i + 18, lim, b[i+14], [ok |-> TRUE, shareId |-> B4(b, i+6)])
   ELSE Bad("share control: unexpected pduType from server")
 
+\* several share control PDUs one after the other in the same MCS user data ("train"), each delimited by its
+\* totalLength: [ok, kind |-> "Train", items]
+RECURSIVE SrvTrainItems(_, _, _, _)
+SrvTrainItems(b, i, lim, acc) ==
+  IF i = lim + 1 THEN [ok |-> TRUE, kind |-> "Train", items |-> acc]
+  ELSE IF i + 5 > lim THEN Bad("train: truncated share control header")
+  ELSE LET n == U16LE(b, i) IN
+       IF n < 6 \/ i + n - 1 > lim THEN Bad("train: totalLength exceeds the user data")
+       ELSE LET m == SrvShareControl(b, i, i + n - 1) IN
+            IF ~m.ok THEN m ELSE SrvTrainItems(b, i + n, lim, Append(acc, m))
+SrvShareControlOrTrain(b, i, lim) ==
+  IF lim - i + 1 >= 6 /\ U16LE(b, i) >= 6 /\ U16LE(b, i) < lim - i + 1 THEN SrvTrainItems(b, i, lim, <<>>)
+  ELSE SrvShareControl(b, i, lim)
+
 (***************************************************************************)
 (* Connection phase.                                                       *)
 (***************************************************************************)
@@ -199,7 +213,7 @@ SrvMcs(b, i, lim) ==
      IF s + l.n - 1 # lim THEN Bad("mcs: send-data indication length # size")
      \* security header with SEC_LICENSE_PKT and flagsHi = 0; a share control header never has pduType 0
      ELSE IF l.n >= 4 /\ HasBit(U16LE(b, s), 128) /\ U16LE(b, s + 2) = 0 THEN Licence(b, s + 4, lim)
-     ELSE LET m == SrvShareControl(b, s, lim) IN
+     ELSE LET m == SrvShareControlOrTrain(b, s, lim) IN
           IF ~m.ok THEN m ELSE m @@ [channel |-> U16BE(b, i+3)]
   ELSE Bad("mcs: unexpected domain PDU from server")
 
